@@ -41,7 +41,22 @@ def package_steps(repo):
             continue
         if fi.all_params == ['package'] and fi.is_generator:
             out.append(fi)
+        elif fi.is_generator and len(fi.all_params) > 1 and fi.all_params[-1] == 'package' and fi.cls is None and \
+                _partial_applied(fi):
+            # a module-level generator whose leading parameters are bound with functools.partial: what the flow sees is a
+            # callable of the single parameter `package`
+            out.append(fi)
     return sorted(out, key=lambda f: f.qualname)
+
+
+def _partial_applied(fi):
+    """Is there, in fi's module, functools.partial(<fi>, a1..ak) binding all parameters but the last?"""
+    k = len(fi.all_params) - 1
+    for n in ast.walk(fi.module.tree):
+        if isinstance(n, ast.Call) and u(n.func) in ('functools.partial', 'partial') and n.args and \
+                isinstance(n.args[0], ast.Name) and n.args[0].id == fi.node.name and len(n.args) - 1 + len(n.keywords) == k:
+            return True
+    return False
 
 
 def rows_steps(repo):
